@@ -425,4 +425,408 @@ theorem loopU_spec : ∀ (f : Nat) (st : St), Limbs st → Rv st < Q → 0 < Uv 
       refine ⟨st, by rw [loopU, loop2_cond_eq, if_neg hcond], hl, hS, rfl, rfl, by omega, 0, by simp, by
         simp [Nat.mod_eq_of_lt hS]⟩
 
+theorem exit_iff (a0 a1 a2 a3 : Nat) :
+    ((decide (a0 = 1)) && decide (((a3 ||| a2) ||| a1) = 0)) = true ↔ val4 a0 a1 a2 a3 = 1 := by
+  simp only [Bool.and_eq_true, decide_eq_true_eq, Nat.or_eq_zero_iff, val4, Word.W]
+  omega
+
+/-- the three outcomes of the exit tests -/
+theorem tail_cases (bigger : Bool) (borrow carry r0 r1 r2 r3 s0 s1 s2 s3 u0 u1 u2 u3 v0 v1 v2 v3 z0 z1 z2 z3 : Nat) :
+    (val4 u0 u1 u2 u3 = 1 ∧ ∃ t,
+      tail bigger borrow carry r0 r1 r2 r3 s0 s1 s2 s3 u0 u1 u2 u3 v0 v1 v2 v3 z0 z1 z2 z3 = (some (r0, r1, r2, r3), t)) ∨
+    (val4 u0 u1 u2 u3 ≠ 1 ∧ val4 v0 v1 v2 v3 = 1 ∧ ∃ t,
+      tail bigger borrow carry r0 r1 r2 r3 s0 s1 s2 s3 u0 u1 u2 u3 v0 v1 v2 v3 z0 z1 z2 z3 = (some (s0, s1, s2, s3), t)) ∨
+    (val4 u0 u1 u2 u3 ≠ 1 ∧ val4 v0 v1 v2 v3 ≠ 1 ∧
+      tail bigger borrow carry r0 r1 r2 r3 s0 s1 s2 s3 u0 u1 u2 u3 v0 v1 v2 v3 z0 z1 z2 z3 =
+        (none, (bigger, borrow, carry, r0, r1, r2, r3, s0, s1, s2, s3, u0, u1, u2, u3, v0, v1, v2, v3, z0, z1, z2, z3))) := by
+  by_cases e1 : ((decide (u0 = 1)) && decide (((u3 ||| u2) ||| u1) = 0)) = true
+  · exact Or.inl ⟨(exit_iff _ _ _ _).1 e1, _, by rw [tail, if_pos e1]⟩
+  · have h1 : val4 u0 u1 u2 u3 ≠ 1 := fun h => e1 ((exit_iff _ _ _ _).2 h)
+    by_cases e2 : ((decide (v0 = 1)) && decide (((v3 ||| v2) ||| v1) = 0)) = true
+    · exact Or.inr (Or.inl ⟨h1, (exit_iff _ _ _ _).1 e2, _, by rw [tail, if_neg e1, if_pos e2]⟩)
+    · exact Or.inr (Or.inr ⟨h1, fun h => e2 ((exit_iff _ _ _ _).2 h), by rw [tail, if_neg e1, if_neg e2]⟩)
+
+/-- unfolding one iteration of the main loop -/
+theorem outer_exit (f : Nat) (st st1 st2 : St) (r : Nat × Nat × Nat × Nat) (t)
+    (h1 : loopV 300 st = some st1) (h2 : loopU 300 st1 = some st2)
+    (h3 : Inverse_seg1 st2.bigger st2.borrow st2.carry st2.r0 st2.r1 st2.r2 st2.r3 st2.s0 st2.s1 st2.s2 st2.s3
+            st2.u0 st2.u1 st2.u2 st2.u3 st2.v0 st2.v1 st2.v2 st2.v3 st2.z0 st2.z1 st2.z2 st2.z3 = (some r, t)) :
+    outer (f + 1) st = some r := by
+  rw [outer, h1]; dsimp only; rw [h2]; dsimp only; rw [h3]
+
+theorem outer_cont (f : Nat) (st st1 st2 : St)
+    (bigger : Bool) (borrow carry r0 r1 r2 r3 s0 s1 s2 s3 u0 u1 u2 u3 v0 v1 v2 v3 z0 z1 z2 z3 : Nat)
+    (h1 : loopV 300 st = some st1) (h2 : loopU 300 st1 = some st2)
+    (h3 : Inverse_seg1 st2.bigger st2.borrow st2.carry st2.r0 st2.r1 st2.r2 st2.r3 st2.s0 st2.s1 st2.s2 st2.s3
+            st2.u0 st2.u1 st2.u2 st2.u3 st2.v0 st2.v1 st2.v2 st2.v3 st2.z0 st2.z1 st2.z2 st2.z3 =
+          (none, (bigger, borrow, carry, r0, r1, r2, r3, s0, s1, s2, s3, u0, u1, u2, u3, v0, v1, v2, v3, z0, z1, z2, z3))) :
+    outer (f + 1) st =
+      outer f ⟨bigger, borrow, carry, r0, r1, r2, r3, s0, s1, s2, s3, u0, u1, u2, u3, v0, v1, v2, v3, z0, z1, z2, z3⟩ := by
+  rw [outer, h1]; dsimp only; rw [h2]; dsimp only; rw [h3]
+
+
+/-- the value-level loop invariant at the head of the main loop, for the operand `X` and the
+constant `KK` (`= R²`): `x·s ≡ v·KK`, `x·r ≡ u·KK`, `gcd(u, v) = 1`, one of `u`, `v` is odd and `> 1` -/
+structure InvV (X : Nat) (KK : ZMod Q) (U V Rr S : Nat) : Prop where
+  hR : Rr < Q
+  hS : S < Q
+  hU : 0 < U
+  hV : 0 < V
+  cop : Nat.Coprime U V
+  big : (U % 2 = 1 ∧ 1 < U) ∨ (V % 2 = 1 ∧ 1 < V)
+  cS : (X : ZMod Q) * (S : ZMod Q) = (V : ZMod Q) * KK
+  cR : (X : ZMod Q) * (Rr : ZMod Q) = (U : ZMod Q) * KK
+
+/-- after the two inner loops -/
+theorem invV_loops {X : Nat} {KK : ZMod Q} {U V Rr S U1 V1 R1 S1 a b : Nat} (h : InvV X KK U V Rr S)
+    (hU : U = 2 ^ a * U1) (hV : V = 2 ^ b * V1) (hRr : (2 ^ a * R1) % Q = Rr) (hSs : (2 ^ b * S1) % Q = S)
+    (hoU : U1 % 2 = 1) (hoV : V1 % 2 = 1) :
+    Nat.Coprime U1 V1 ∧ (X : ZMod Q) * (S1 : ZMod Q) = (V1 : ZMod Q) * KK ∧
+      (X : ZMod Q) * (R1 : ZMod Q) = (U1 : ZMod Q) * KK ∧ U1 ≠ V1 ∧ 2 * (U1 * V1) ≤ mu U V := by
+  have c1 : Nat.Coprime U1 V1 :=
+    coprime_halve_right _ _ _ _ hV (coprime_halve_right _ _ _ _ hU h.cop.symm).symm
+  refine ⟨c1, cong_halve _ _ _ _ _ _ _ hV hSs h.cS, cong_halve _ _ _ _ _ _ _ hU hRr h.cR, ?_,
+    mu_ge _ _ _ _ _ _ hU hV hoU hoV⟩
+  intro he
+  subst he
+  have h1 : U1 = 1 := (Nat.coprime_self _).1 c1
+  rcases h.big with ⟨ho, hgt⟩ | ⟨ho, hgt⟩
+  · have := odd_two_pow_mul a U1 (hU ▸ ho); subst this; simp at hU; omega
+  · have := odd_two_pow_mul b U1 (hV ▸ ho); subst this; simp at hV; omega
+
+/-- the subtraction `v -= u; s -= r` re-establishes the invariant and at least halves the measure -/
+theorem invV_sub_v {X : Nat} {KK : ZMod Q} {U1 V1 R1 S1 V2 S2 M : Nat}
+    (hR : R1 < Q) (hS2 : S2 < Q) (hoU : U1 % 2 = 1) (hoV : V1 % 2 = 1)
+    (cop : Nat.Coprime U1 V1) (cS : (X : ZMod Q) * (S1 : ZMod Q) = (V1 : ZMod Q) * KK)
+    (cR : (X : ZMod Q) * (R1 : ZMod Q) = (U1 : ZMod Q) * KK) (hne : U1 ≠ V1) (hM : 2 * (U1 * V1) ≤ M)
+    (hV : V2 + U1 = V1) (hS : (S2 + R1) % Q = S1) (hU1 : U1 ≠ 1) :
+    InvV X KK U1 V2 R1 S2 ∧ 2 * mu U1 V2 < M := by
+  have hm := mu_sub U1 V1 V2 hoU hoV hV (by omega)
+  refine ⟨⟨hR, hS2, by omega, by omega, coprime_sub_right _ _ _ hV cop, Or.inl ⟨hoU, by omega⟩,
+    cong_sub _ _ _ _ _ _ _ _ hV hS cS cR, cR⟩, ?_⟩
+  rw [hm.1]; omega
+
+/-- the subtraction `u -= v; r -= s` -/
+theorem invV_sub_u {X : Nat} {KK : ZMod Q} {U1 V1 R1 S1 U2 R2 M : Nat}
+    (hS : S1 < Q) (hR2 : R2 < Q) (hoU : U1 % 2 = 1) (hoV : V1 % 2 = 1)
+    (cop : Nat.Coprime U1 V1) (cS : (X : ZMod Q) * (S1 : ZMod Q) = (V1 : ZMod Q) * KK)
+    (cR : (X : ZMod Q) * (R1 : ZMod Q) = (U1 : ZMod Q) * KK) (hne : U1 ≠ V1) (hM : 2 * (U1 * V1) ≤ M)
+    (hU : U2 + V1 = U1) (hR : (R2 + S1) % Q = R1) (hV1 : V1 ≠ 1) :
+    InvV X KK U2 V1 R2 S1 ∧ 2 * mu U2 V1 < M := by
+  have hm := mu_sub V1 U1 U2 hoV hoU hU (by omega)
+  refine ⟨⟨hR2, hS, by omega, by omega, (coprime_sub_right _ _ _ hU cop.symm).symm, Or.inr ⟨hoV, by omega⟩,
+    cS, cong_sub _ _ _ _ _ _ _ _ hU hR cR cS⟩, ?_⟩
+  rw [hm.2.1, Nat.mul_comm U1 V1] at *; omega
+
+
+/-- a correct result: four words, canonical, `x·r ≡ KK` -/
+def Good (X : Nat) (KK : ZMod Q) (r : Nat × Nat × Nat × Nat) : Prop :=
+  r.1 < W ∧ r.2.1 < W ∧ r.2.2.1 < W ∧ r.2.2.2 < W ∧ val4 r.1 r.2.1 r.2.2.1 r.2.2.2 < Q ∧
+    (X : ZMod Q) * ((val4 r.1 r.2.1 r.2.2.1 r.2.2.2 : Nat) : ZMod Q) = KK
+
+/-- the loop invariant on model states -/
+structure Inv (X : Nat) (KK : ZMod Q) (st : St) : Prop where
+  limbs : Limbs st
+  v : InvV X KK (Uv st) (Vv st) (Rv st) (Sv st)
+
+set_option exponentiation.threshold 1024 in
+theorem R_le : R ≤ 2 ^ 300 := by
+  have h : R = 2 ^ 256 := by decide
+  rw [h]; exact Nat.pow_le_pow_right (by decide) (by decide)
+
+theorem Limbs.V_lt {st : St} (h : Limbs st) : Vv st < 2 ^ 300 :=
+  Nat.lt_of_lt_of_le (val4_lt _ _ _ _ h.v0 h.v1 h.v2 h.v3) R_le
+theorem Limbs.U_lt {st : St} (h : Limbs st) : Uv st < 2 ^ 300 :=
+  Nat.lt_of_lt_of_le (val4_lt _ _ _ _ h.u0 h.u1 h.u2 h.u3) R_le
+
+/-- one iteration of the main loop from a state satisfying the invariant: the inner loops have enough
+fuel, and either the iteration returns a correct result or it re-establishes the invariant with a
+measure that has at least halved -/
+theorem outer_step (X : Nat) (KK : ZMod Q) (st : St) (h : Inv X KK st) :
+    (∃ r, (∀ f, outer (f + 1) st = some r) ∧ Good X KK r) ∨
+    (∃ st', (∀ f, outer (f + 1) st = outer f st') ∧ Inv X KK st' ∧
+      2 * mu (Uv st') (Vv st') < mu (Uv st) (Vv st)) := by
+  obtain ⟨st1, hV1, hl1, hS1, hU1e, hR1e, hoV, k, hk1, hk2⟩ :=
+    loopV_spec 300 st h.limbs h.v.hS h.v.hV h.limbs.V_lt
+  obtain ⟨st2, hU2, hl2, hR2, hV2e, hS2e, hoU, j, hj1, hj2⟩ :=
+    loopU_spec 300 st1 hl1 (hR1e ▸ h.v.hR) (hU1e ▸ h.v.hU) hl1.U_lt
+  rw [hU1e] at hj1; rw [hR1e] at hj2
+  rw [← hV2e] at hk1 hoV; rw [← hS2e] at hk2 hS1
+  obtain ⟨cop, cS, cR, hne, hM⟩ := invV_loops h.v hj1 hk1 hj2 hk2 hoU hoV
+  by_cases hge : Uv st2 ≤ Vv st2
+  · obtain ⟨b, bo, c, s0', s1', s2', s3', v0', v1', v2', v3', a0, a1, a2, a3, a4, a5, a6, a7, hvv, hs', hss, heq⟩ :=
+      seg1_ge st2.carry st2.r0 st2.r1 st2.r2 st2.r3 st2.s0 st2.s1 st2.s2 st2.s3 st2.u0 st2.u1 st2.u2 st2.u3
+        st2.v0 st2.v1 st2.v2 st2.v3 hl2.r0 hl2.r1 hl2.r2 hl2.r3 hl2.s0 hl2.s1 hl2.s2 hl2.s3
+        hl2.u0 hl2.u1 hl2.u2 hl2.u3 hl2.v0 hl2.v1 hl2.v2 hl2.v3 hR2 hS1 hge
+    rcases tail_cases b bo c st2.r0 st2.r1 st2.r2 st2.r3 s0' s1' s2' s3' st2.u0 st2.u1 st2.u2 st2.u3
+        v0' v1' v2' v3' st2.z0 st2.z1 st2.z2 st2.z3 with ⟨hu1, t, ht⟩ | ⟨hu1, hv1, t, ht⟩ | ⟨hu1, hv1, ht⟩
+    · refine Or.inl ⟨(st2.r0, st2.r1, st2.r2, st2.r3),
+        fun f => outer_exit f st st1 st2 _ t hV1 hU2 ((heq _ _ _ _ _ _).trans ht),
+        hl2.r0, hl2.r1, hl2.r2, hl2.r3, hR2, ?_⟩
+      have : Uv st2 = 1 := hu1
+      rw [this, Nat.cast_one, one_mul] at cR
+      exact cR
+    · obtain ⟨hi, _⟩ := invV_sub_v hR2 hs' hoU hoV cop cS cR hne hM hvv hss hu1
+      refine Or.inl ⟨(s0', s1', s2', s3'),
+        fun f => outer_exit f st st1 st2 _ t hV1 hU2 ((heq _ _ _ _ _ _).trans ht),
+        a0, a1, a2, a3, hs', ?_⟩
+      have hc := hi.cS
+      rw [hv1, Nat.cast_one, one_mul] at hc
+      exact hc
+    · obtain ⟨hi, hm⟩ := invV_sub_v hR2 hs' hoU hoV cop cS cR hne hM hvv hss hu1
+      exact Or.inr ⟨_, fun f => outer_cont f st st1 st2 _ _ _ _ _ _ _ _ _ _ _ _ _ _ _ _ _ _ _ _ _ _ _ hV1 hU2
+          ((heq _ _ _ _ _ _).trans ht),
+        ⟨⟨hl2.r0, hl2.r1, hl2.r2, hl2.r3, a0, a1, a2, a3, hl2.u0, hl2.u1, hl2.u2, hl2.u3, a4, a5, a6, a7⟩, hi⟩, hm⟩
+  · have hlt : Vv st2 < Uv st2 := Nat.lt_of_not_le hge
+    obtain ⟨b, bo, c, r0', r1', r2', r3', u0', u1', u2', u3', a0, a1, a2, a3, a4, a5, a6, a7, huu, hr', hrr, heq⟩ :=
+      seg1_lt st2.carry st2.r0 st2.r1 st2.r2 st2.r3 st2.s0 st2.s1 st2.s2 st2.s3 st2.u0 st2.u1 st2.u2 st2.u3
+        st2.v0 st2.v1 st2.v2 st2.v3 hl2.r0 hl2.r1 hl2.r2 hl2.r3 hl2.s0 hl2.s1 hl2.s2 hl2.s3
+        hl2.u0 hl2.u1 hl2.u2 hl2.u3 hl2.v0 hl2.v1 hl2.v2 hl2.v3 hR2 hS1 hlt
+    rcases tail_cases b bo c r0' r1' r2' r3' st2.s0 st2.s1 st2.s2 st2.s3 u0' u1' u2' u3'
+        st2.v0 st2.v1 st2.v2 st2.v3 st2.z0 st2.z1 st2.z2 st2.z3 with ⟨hu1, t, ht⟩ | ⟨hu1, hv1, t, ht⟩ | ⟨hu1, hv1, ht⟩
+    · -- `u - v = 1`
+      have hv1 : Vv st2 ≠ 1 := by
+        intro hv
+        have h1 : val4 u0' u1' u2' u3' + Vv st2 = Uv st2 := huu
+        rw [hu1, hv] at h1
+        omega
+      obtain ⟨hi, _⟩ := invV_sub_u hS1 hr' hoU hoV cop cS cR hne hM huu hrr hv1
+      refine Or.inl ⟨(r0', r1', r2', r3'),
+        fun f => outer_exit f st st1 st2 _ t hV1 hU2 ((heq _ _ _ _ _ _).trans ht),
+        a0, a1, a2, a3, hr', ?_⟩
+      have hc := hi.cR
+      rw [hu1, Nat.cast_one, one_mul] at hc
+      exact hc
+    · refine Or.inl ⟨(st2.s0, st2.s1, st2.s2, st2.s3),
+        fun f => outer_exit f st st1 st2 _ t hV1 hU2 ((heq _ _ _ _ _ _).trans ht),
+        hl2.s0, hl2.s1, hl2.s2, hl2.s3, hS1, ?_⟩
+      have : Vv st2 = 1 := hv1
+      rw [this, Nat.cast_one, one_mul] at cS
+      exact cS
+    · obtain ⟨hi, hm⟩ := invV_sub_u hS1 hr' hoU hoV cop cS cR hne hM huu hrr hv1
+      exact Or.inr ⟨_, fun f => outer_cont f st st1 st2 _ _ _ _ _ _ _ _ _ _ _ _ _ _ _ _ _ _ _ _ _ _ _ hV1 hU2
+          ((heq _ _ _ _ _ _).trans ht),
+        ⟨⟨a0, a1, a2, a3, hl2.s0, hl2.s1, hl2.s2, hl2.s3, a4, a5, a6, a7, hl2.v0, hl2.v1, hl2.v2, hl2.v3⟩, hi⟩, hm⟩
+
+
+/-- the main loop: fuel `f` suffices as soon as the measure is below `2^f` -/
+theorem outer_ok (X : Nat) (KK : ZMod Q) : ∀ (f : Nat) (st : St), Inv X KK st → mu (Uv st) (Vv st) < 2 ^ f →
+    ∃ r, outer f st = some r ∧ Good X KK r := by
+  intro f
+  induction f with
+  | zero =>
+    intro st h hm
+    have := mu_pos _ _ h.v.hU h.v.hV
+    omega
+  | succ f ih =>
+    intro st h hm
+    rcases outer_step X KK st h with ⟨r, hr, hg⟩ | ⟨st', he, hi, hlt⟩
+    · exact ⟨r, hr f, hg⟩
+    · obtain ⟨r, hr, hg⟩ := ih st' hi (by rw [pow_succ] at hm; omega)
+      exact ⟨r, (he f).trans hr, hg⟩
+
+theorem mu_le (U V : Nat) : mu U V ≤ U * V * 2 := by
+  unfold mu; split
+  · exact Nat.le_refl _
+  · omega
+
+theorem Q_lt : Q < 2 ^ 254 := by decide
+
+set_option exponentiation.threshold 1024 in
+theorem mu_init (X : Nat) (hX : X < Q) : mu Q X < 2 ^ 600 := by
+  have h1 : Q * X < 2 ^ 254 * 2 ^ 254 := Nat.mul_lt_mul'' Q_lt (Nat.lt_trans hX Q_lt)
+  have h2 : (2 : Nat) ^ 254 * 2 ^ 254 * 2 = 2 ^ 509 := by rw [← pow_add, ← pow_succ]
+  have h3 : (2 : Nat) ^ 509 ≤ 2 ^ 600 := Nat.pow_le_pow_right (by decide) (by decide)
+  have h4 := mu_le Q X
+  generalize Q * X = P at *
+  generalize (2 : Nat) ^ 254 * 2 ^ 254 = B at *
+  generalize (2 : Nat) ^ 509 = C at *
+  generalize (2 : Nat) ^ 600 = D at *
+  omega
+
+/-! ### the pre-loop segment -/
+
+theorem pre_zero (z0 z1 z2 z3 x0 x1 x2 x3 : Nat) (h : (x0 ||| x1 ||| x2 ||| x3) = 0) :
+    ∃ t, Inverse_pre z0 z1 z2 z3 x0 x1 x2 x3 = (some (0, 0, 0, 0), t) :=
+  ⟨_, by limb_eval [Inverse_pre]⟩
+
+theorem pre_nonzero (z0 z1 z2 z3 x0 x1 x2 x3 : Nat) (h : ¬ (x0 ||| x1 ||| x2 ||| x3) = 0) :
+    Inverse_pre z0 z1 z2 z3 x0 x1 x2 x3 = (none, (false, 0, 0, 0, 0, 0, 0,
+      1997599621687373223, 6052339484930628067, 10108755138030829701, 150537098327114917,
+      4891460686036598785, 2896914383306846353, 13281191951274694749, 3486998266802970665,
+      x0, x1, x2, x3, z0, z1, z2, z3)) := by
+  limb_eval [Inverse_pre]
+
+/-- the state entering the main loop -/
+def st0 (z0 z1 z2 z3 x0 x1 x2 x3 : Nat) : St :=
+  ⟨false, 0, 0, 0, 0, 0, 0,
+    1997599621687373223, 6052339484930628067, 10108755138030829701, 150537098327114917,
+    4891460686036598785, 2896914383306846353, 13281191951274694749, 3486998266802970665,
+    x0, x1, x2, x3, z0, z1, z2, z3⟩
+
+theorem inverse_zero_of (z0 z1 z2 z3 x0 x1 x2 x3 : Nat) (h : (x0 ||| x1 ||| x2 ||| x3) = 0) :
+    inverse z0 z1 z2 z3 x0 x1 x2 x3 = some (0, 0, 0, 0) := by
+  obtain ⟨t, ht⟩ := pre_zero z0 z1 z2 z3 x0 x1 x2 x3 h
+  rw [inverse, ht]
+
+theorem inverse_nonzero_of (z0 z1 z2 z3 x0 x1 x2 x3 : Nat) (h : ¬ (x0 ||| x1 ||| x2 ||| x3) = 0) :
+    inverse z0 z1 z2 z3 x0 x1 x2 x3 = outer 600 (st0 z0 z1 z2 z3 x0 x1 x2 x3) := by
+  rw [inverse, pre_nonzero z0 z1 z2 z3 x0 x1 x2 x3 h]; rfl
+
+theorem or_ne_zero (x0 x1 x2 x3 : Nat) (h : val4 x0 x1 x2 x3 ≠ 0) : ¬ (x0 ||| x1 ||| x2 ||| x3) = 0 := by
+  intro hz
+  simp only [Nat.or_eq_zero_iff] at hz
+  obtain ⟨⟨⟨rfl, rfl⟩, rfl⟩, rfl⟩ := hz
+  exact h val4_zero
+
+/-- the constant of the two congruences: `R² mod q` -/
+noncomputable def KK : ZMod Q := ((R * R % Q : Nat) : ZMod Q)
+
+theorem inv_init (z0 z1 z2 z3 x0 x1 x2 x3 : Nat)
+    (hx0 : x0 < W) (hx1 : x1 < W) (hx2 : x2 < W) (hx3 : x3 < W)
+    (hx : val4 x0 x1 x2 x3 < Q) (hne : val4 x0 x1 x2 x3 ≠ 0) :
+    Inv (val4 x0 x1 x2 x3) KK (st0 z0 z1 z2 z3 x0 x1 x2 x3) := by
+  have hU : Uv (st0 z0 z1 z2 z3 x0 x1 x2 x3) = Q := val4_Q
+  have hV : Vv (st0 z0 z1 z2 z3 x0 x1 x2 x3) = val4 x0 x1 x2 x3 := rfl
+  have hR : Rv (st0 z0 z1 z2 z3 x0 x1 x2 x3) = 0 := val4_zero
+  have hS : Sv (st0 z0 z1 z2 z3 x0 x1 x2 x3) = R * R % Q := rSquare_val
+  refine ⟨⟨(by decide : (0 : Nat) < W), (by decide : (0 : Nat) < W), (by decide : (0 : Nat) < W),
+    (by decide : (0 : Nat) < W), (by decide : (1997599621687373223 : Nat) < W),
+    (by decide : (6052339484930628067 : Nat) < W), (by decide : (10108755138030829701 : Nat) < W),
+    (by decide : (150537098327114917 : Nat) < W), (by decide : (4891460686036598785 : Nat) < W),
+    (by decide : (2896914383306846353 : Nat) < W), (by decide : (13281191951274694749 : Nat) < W),
+    (by decide : (3486998266802970665 : Nat) < W), hx0, hx1, hx2, hx3⟩, ?_⟩
+  rw [hU, hV, hR, hS]
+  have hq : Nat.Prime Q := Fact.out
+  refine ⟨by decide, Nat.mod_lt _ (by decide), by decide, Nat.pos_of_ne_zero hne, ?_, Or.inl (by decide), rfl, ?_⟩
+  · exact (Nat.Prime.coprime_iff_not_dvd hq).2 (Nat.not_dvd_of_pos_of_lt (Nat.pos_of_ne_zero hne) hx)
+  · rw [Nat.cast_zero, mul_zero, ZMod.natCast_self, zero_mul]
+
+/-! ### the destination cells are irrelevant -/
+
+/-- overwrite the destination cells -/
+def setZ (a b c d : Nat) (st : St) : St := { st with z0 := a, z1 := b, z2 := c, z3 := d }
+
+theorem loopV_setZ (a b c d : Nat) : ∀ (f : Nat) (st : St),
+    loopV f (setZ a b c d st) = (loopV f st).map (setZ a b c d) := by
+  intro f
+  induction f with
+  | zero => intro st; rfl
+  | succ f ih =>
+    intro st
+    obtain ⟨bg, bo, ca, r0, r1, r2, r3, s0, s1, s2, s3, u0, u1, u2, u3, v0, v1, v2, v3, z0, z1, z2, z3⟩ := st
+    by_cases hc : Inverse_loop1_cond ca s0 s1 s2 s3 v0 v1 v2 v3 = true
+    · simp only [loopV, setZ, hc, if_true]
+      exact ih ⟨bg, bo, _, r0, r1, r2, r3, _, _, _, _, u0, u1, u2, u3, _, _, _, _, z0, z1, z2, z3⟩
+    · simp only [loopV, setZ, hc, if_false, Option.map, Bool.false_eq_true]
+
+theorem loopU_setZ (a b c d : Nat) : ∀ (f : Nat) (st : St),
+    loopU f (setZ a b c d st) = (loopU f st).map (setZ a b c d) := by
+  intro f
+  induction f with
+  | zero => intro st; rfl
+  | succ f ih =>
+    intro st
+    obtain ⟨bg, bo, ca, r0, r1, r2, r3, s0, s1, s2, s3, u0, u1, u2, u3, v0, v1, v2, v3, z0, z1, z2, z3⟩ := st
+    by_cases hc : Inverse_loop2_cond ca r0 r1 r2 r3 u0 u1 u2 u3 = true
+    · simp only [loopU, setZ, hc, if_true]
+      exact ih ⟨bg, bo, _, _, _, _, _, s0, s1, s2, s3, _, _, _, _, v0, v1, v2, v3, z0, z1, z2, z3⟩
+    · simp only [loopU, setZ, hc, if_false, Option.map, Bool.false_eq_true]
+
+theorem outer_none1 (f : Nat) (st : St) (h1 : loopV 300 st = none) : outer (f + 1) st = none := by
+  rw [outer, h1]
+
+theorem outer_none2 (f : Nat) (st st1 : St) (h1 : loopV 300 st = some st1) (h2 : loopU 300 st1 = none) :
+    outer (f + 1) st = none := by
+  rw [outer, h1]; dsimp only; rw [h2]
+
+theorem outer_setZ (a b c d : Nat) : ∀ (f : Nat) (st : St), outer f (setZ a b c d st) = outer f st := by
+  intro f
+  induction f with
+  | zero => intro st; rfl
+  | succ f ih =>
+    intro st
+    rcases h1 : loopV 300 st with _ | st1
+    · have h1' : loopV 300 (setZ a b c d st) = none := by rw [loopV_setZ, h1]; rfl
+      rw [outer_none1 f _ h1, outer_none1 f _ h1']
+    · have h1' : loopV 300 (setZ a b c d st) = some (setZ a b c d st1) := by rw [loopV_setZ, h1]; rfl
+      rcases h2 : loopU 300 st1 with _ | st2
+      · have h2' : loopU 300 (setZ a b c d st1) = none := by rw [loopU_setZ, h2]; rfl
+        rw [outer_none2 f _ _ h1 h2, outer_none2 f _ _ h1' h2']
+      · have h2' : loopU 300 (setZ a b c d st1) = some (setZ a b c d st2) := by rw [loopU_setZ, h2]; rfl
+        obtain ⟨b', bo', c', r0', r1', r2', r3', s0', s1', s2', s3', u0', u1', u2', u3', v0', v1', v2', v3', heq⟩ :=
+          seg1_tail st2.carry st2.r0 st2.r1 st2.r2 st2.r3 st2.s0 st2.s1 st2.s2 st2.s3
+            st2.u0 st2.u1 st2.u2 st2.u3 st2.v0 st2.v1 st2.v2 st2.v3
+        have h3 := heq st2.bigger st2.borrow st2.z0 st2.z1 st2.z2 st2.z3
+        have h3' : Inverse_seg1 (setZ a b c d st2).bigger (setZ a b c d st2).borrow (setZ a b c d st2).carry
+            (setZ a b c d st2).r0 (setZ a b c d st2).r1 (setZ a b c d st2).r2 (setZ a b c d st2).r3
+            (setZ a b c d st2).s0 (setZ a b c d st2).s1 (setZ a b c d st2).s2 (setZ a b c d st2).s3
+            (setZ a b c d st2).u0 (setZ a b c d st2).u1 (setZ a b c d st2).u2 (setZ a b c d st2).u3
+            (setZ a b c d st2).v0 (setZ a b c d st2).v1 (setZ a b c d st2).v2 (setZ a b c d st2).v3
+            (setZ a b c d st2).z0 (setZ a b c d st2).z1 (setZ a b c d st2).z2 (setZ a b c d st2).z3 = _ :=
+          heq st2.bigger st2.borrow a b c d
+        by_cases e1 : ((decide (u0' = 1)) && decide (((u3' ||| u2') ||| u1') = 0)) = true
+        · rw [tail, if_pos e1] at h3 h3'
+          rw [outer_exit f _ _ _ _ _ h1 h2 h3, outer_exit f _ _ _ _ _ h1' h2' h3']
+        · by_cases e2 : ((decide (v0' = 1)) && decide (((v3' ||| v2') ||| v1') = 0)) = true
+          · rw [tail, if_neg e1, if_pos e2] at h3 h3'
+            rw [outer_exit f _ _ _ _ _ h1 h2 h3, outer_exit f _ _ _ _ _ h1' h2' h3']
+          · rw [tail, if_neg e1, if_neg e2] at h3 h3'
+            rw [outer_cont f _ _ _ _ _ _ _ _ _ _ _ _ _ _ _ _ _ _ _ _ _ _ _ _ _ _ h1 h2 h3,
+              outer_cont f _ _ _ _ _ _ _ _ _ _ _ _ _ _ _ _ _ _ _ _ _ _ _ _ _ _ h1' h2' h3']
+            exact ih ⟨b', bo', c', r0', r1', r2', r3', s0', s1', s2', s3', u0', u1', u2', u3', v0', v1', v2', v3',
+              st2.z0, st2.z1, st2.z2, st2.z3⟩
+
+/-- `z.Inverse(x)` does not depend on the previous contents of `z` -/
+theorem inverse_z_irrel (z0 z1 z2 z3 w0 w1 w2 w3 x0 x1 x2 x3 : Nat) :
+    inverse w0 w1 w2 w3 x0 x1 x2 x3 = inverse z0 z1 z2 z3 x0 x1 x2 x3 := by
+  by_cases h : (x0 ||| x1 ||| x2 ||| x3) = 0
+  · rw [inverse_zero_of _ _ _ _ _ _ _ _ h, inverse_zero_of _ _ _ _ _ _ _ _ h]
+  · rw [inverse_nonzero_of _ _ _ _ _ _ _ _ h, inverse_nonzero_of _ _ _ _ _ _ _ _ h]
+    exact outer_setZ w0 w1 w2 w3 600 (st0 z0 z1 z2 z3 x0 x1 x2 x3)
+
+
+
+/-! ### the whole function -/
+
+/-- `Inverse` on a canonical non-zero operand: the fuel suffices and the result is the canonical `r`
+with `r·x ≡ R² (mod q)` -/
+theorem inverse_correct (z0 z1 z2 z3 x0 x1 x2 x3 : Nat)
+    (hx0 : x0 < W) (hx1 : x1 < W) (hx2 : x2 < W) (hx3 : x3 < W)
+    (hx : val4 x0 x1 x2 x3 < Q) (hne : val4 x0 x1 x2 x3 ≠ 0) :
+    ∃ r0 r1 r2 r3, inverse z0 z1 z2 z3 x0 x1 x2 x3 = some (r0, r1, r2, r3) ∧
+      r0 < W ∧ r1 < W ∧ r2 < W ∧ r3 < W ∧ val4 r0 r1 r2 r3 < Q ∧
+      (val4 r0 r1 r2 r3 * val4 x0 x1 x2 x3) % Q = (R * R) % Q := by
+  have hm : mu (Uv (st0 z0 z1 z2 z3 x0 x1 x2 x3)) (Vv (st0 z0 z1 z2 z3 x0 x1 x2 x3)) < 2 ^ 600 := by
+    show mu (val4 4891460686036598785 2896914383306846353 13281191951274694749 3486998266802970665)
+      (val4 x0 x1 x2 x3) < 2 ^ 600
+    rw [val4_Q]; exact mu_init _ hx
+  obtain ⟨⟨r0, r1, r2, r3⟩, hr, g0, g1, g2, g3, hlt, hc⟩ :=
+    outer_ok (val4 x0 x1 x2 x3) KK 600 _ (inv_init z0 z1 z2 z3 x0 x1 x2 x3 hx0 hx1 hx2 hx3 hx hne) hm
+  refine ⟨r0, r1, r2, r3, (inverse_nonzero_of _ _ _ _ _ _ _ _ (or_ne_zero _ _ _ _ hne)).trans hr,
+    g0, g1, g2, g3, hlt, ?_⟩
+  have h1 : ((val4 r0 r1 r2 r3 * val4 x0 x1 x2 x3 : Nat) : ZMod Q) = ((R * R % Q : Nat) : ZMod Q) := by
+    rw [Nat.cast_mul, mul_comm]; exact hc
+  have h2 := (ZMod.natCast_eq_natCast_iff' _ _ _).1 h1
+  rwa [Nat.mod_mod] at h2
+
+theorem cast_ne_zero (X : Nat) (hX : X < Q) (hne : X ≠ 0) : (X : ZMod Q) ≠ 0 := by
+  intro h
+  have := (ZMod.natCast_eq_zero_iff X Q).1 h
+  exact Nat.not_dvd_of_pos_of_lt (Nat.pos_of_ne_zero hne) hX this
+
+/-- field reading of `r·x ≡ R²`: as residues `r = R²·x⁻¹`; as represented elements `toF r = (toF x)⁻¹` -/
+theorem inverse_field_of (r X : Nat) (hX : X < Q) (hne : X ≠ 0) (h : (r * X) % Q = (R * R) % Q) :
+    (r : ZMod Q) = (R : ZMod Q) ^ 2 * (X : ZMod Q)⁻¹ ∧ toF r = (toF X)⁻¹ := by
+  have h1 : ((r * X : Nat) : ZMod Q) = ((R * R : Nat) : ZMod Q) := (ZMod.natCast_eq_natCast_iff' _ _ _).2 h
+  push_cast at h1
+  have hX0 := cast_ne_zero X hX hne
+  have hR := R_ne_zero
+  constructor
+  · field_simp
+    linear_combination h1
+  · unfold toF
+    field_simp
+    linear_combination h1
+
 end I3.InvLoop
